@@ -171,7 +171,6 @@ class ExternalVariableCollector(NodeVisitor):
         self.funcnames = set()
         self.root = tree
         self.visit(tree)
-        self.used -= self.funcnames
 
     def visit_FunctionDef(self, node):
         self.funcnames.add(node.name)
